@@ -505,3 +505,21 @@ def shrink_candidates(inp):
     if len(runs) == 1 and "mode" in runs[0]["script"] and runs[0]["script"]["seed"] > 3:
         for sd in (0, 1, 2, 3):
             c = dict(inp); r = dict(runs[0]); r["script"] = dict(r["script"], seed=sd); c["runs"] = [r]; yield c
+
+
+# --------------------------------------------------------------------------------------
+# second tie: the decision tables of this property regenerated from the source on every run
+# (harness/dectables2.py -> generated Lean file checked by the kernel; bridge: SA/Theorems/DecTables2.lean)
+# --------------------------------------------------------------------------------------
+def extra_gate_start():
+    """start the translator + Lean check in a child process; the cases run meanwhile"""
+    import common
+    import dectables2
+    return dectables2.start(common.REPO)
+
+
+def extra_gate_finish(handle):
+    """-> {problems, theorems, obligations, discharged, notes, evidence}; a definite mismatch of a table row is a
+    broken proof obligation, `unknown` rows are evidence only"""
+    import dectables2
+    return dectables2.gate_result(dectables2.finish(handle), ID)
